@@ -96,7 +96,7 @@ def InclNs (asg : List String) (args : List CExpr) : Prop :=
 
 theorem carveNSem_of_carveN (asg : List String) (e : CExpr) : InclN asg e := by
   refine CExpr.rec (motive_1 := InclN asg) (motive_2 := InclNs asg)
-    ?reg ?imm ?lit ?var ?cast ?un ?not ?bin ?shift ?cmp ?log ?tern ?macroc ?load ?post ?call ?stmtexpr ?seqexpr ?nil ?cons e
+    ?reg ?imm ?lit ?var ?cast ?un ?not ?bin ?shift ?cmp ?log ?tern ?macroc ?load ?post ?call ?stmtexpr ?seqexpr ?callx ?xmacro ?nil ?cons e
   case reg => intro n k t h; rw [CarveN] at h; rw [CarveNSem]; exact h
   case imm => intro l s _; rw [CarveNSem]
   case lit => intro v hx s h; rw [CarveN] at h; rw [CarveNSem]; exact h
@@ -156,6 +156,8 @@ theorem carveNSem_of_carveN (asg : List String) (e : CExpr) : InclN asg e := by
   case call => intro n a r p _ h; rw [CarveN] at h; cases h
   case stmtexpr => intro t v e _ h; rw [CarveN] at h; cases h
   case seqexpr => intro n x a p v _ _ h; rw [CarveN] at h; cases h
+  case callx => intro n x a r p _ h; rw [CarveN] at h; cases h
+  case xmacro => intro n x r h; rw [CarveN] at h; cases h
   case nil => intro params _; rw [CarveNsSem]
   case cons =>
     intro a as iha ihas params h
